@@ -1,4 +1,271 @@
-//! Directory-level observations (C03, C15, C16): filled in below.
+//! Directory-level observations (C03, C15, C16): real directory trees, the three real `analyze_dir`.
+//!
+//! A tree is created under a scratch root outside /repo and /verif, listed with `read_dir` (the
+//! order the implementation will see), analysed by the real code, and removed.  The per-file
+//! analysis is observed separately (`analyze_for_*` on each eligible file) and handed to the Lean
+//! model as a table: the model of `analyze_dir` is parametric in it.
 use super::Ctx;
+use solstat::analyzer::{optimizations, qa, vulnerabilities};
+use solstat_verif_harness::gen::{self, Cfg};
+use solstat_verif_harness::hex;
+use solstat_verif_harness::real;
 use solstat_verif_harness::rng::Rng;
-pub fn dir_requests(_ctx: &mut Ctx, _rng: &mut Rng) {}
+use std::collections::BTreeMap;
+use std::panic::{catch_unwind, AssertUnwindSafe};
+use std::path::{Path, PathBuf};
+
+const ELIGIBLE_NAMES: [&str; 12] = [
+    "A.sol", "b.sol", "Token.sol", "x.t.solver.sol", ".sol", "\u{e9}t\u{e9}.sol", "a b.sol", "UP.sol", "d.t.sol.sol", "t.sol", "my.test.sol", "a-b:c.sol",
+];
+const INELIGIBLE_NAMES: [&str; 16] = [
+    "A.t.sol", "B.T.sol", "c.T.SOL", "e.SOL", "README.md", "f.sol.txt", "noext", "g.sol~", "h.tsol", "i..t.sol", "J.T.Sol", "k.t.SOL", ".t.sol",
+    "x.Sol", "notes.t.sol", "\u{1e9e}.T.sol",
+];
+
+struct Built {
+    /// encoding of the tree in listing order (see `encode`)
+    enc: String,
+    /// content key -> source, for eligible files
+    sources: BTreeMap<String, String>,
+}
+
+fn eligible_spec(name: &str) -> bool {
+    name.ends_with(".sol") && !name.to_lowercase().ends_with(".t.sol")
+}
+
+fn small_contract(rng: &mut Rng) -> String {
+    let seed = rng.next();
+    let cfg = Cfg { max_depth: 2, snippet_pct: 60, max_items: 2, allow_assembly: false, ..Cfg::default() };
+    let mut s = gen::random_file(seed, cfg);
+    if solang_parser::parse(&s, 0).is_err() {
+        s = "pragma solidity ^0.8.0;\ncontract C { function f(uint a) public { a++; } }\n".to_string();
+    }
+    s
+}
+
+fn populate(dir: &Path, rng: &mut Rng, depth: usize, counter: &mut usize, hostile: bool) {
+    let n = 1 + rng.below(5);
+    let mut names: Vec<(String, u8)> = vec![]; // 0 eligible file, 1 ineligible file, 2 dir
+    for _ in 0..n {
+        match rng.below(10) {
+            0..=4 => names.push((ELIGIBLE_NAMES[rng.below(ELIGIBLE_NAMES.len())].to_string(), 0)),
+            5..=7 => names.push((INELIGIBLE_NAMES[rng.below(INELIGIBLE_NAMES.len())].to_string(), 1)),
+            _ if depth > 0 => names.push((format!("sub{}", rng.below(4)), 2)),
+            _ => names.push((ELIGIBLE_NAMES[rng.below(ELIGIBLE_NAMES.len())].to_string(), 0)),
+        }
+    }
+    rng.shuffle(&mut names);
+    for (name, kind) in names {
+        let p = dir.join(&name);
+        if p.exists() {
+            continue;
+        }
+        *counter += 1;
+        match kind {
+            0 => {
+                let src = if hostile && rng.chance(1, 6) { "\u{0}\u{ff}garbage".to_string() } else { small_contract(rng) };
+                let _ = std::fs::write(&p, src);
+            }
+            1 => {
+                let content: Vec<u8> = match rng.below(4) {
+                    0 => vec![0xff, 0xfe, 0x00, 0x80, 0xc3],
+                    1 => b"contract { this does not parse ;;; ".to_vec(),
+                    2 => vec![],
+                    _ => small_contract(rng).into_bytes(),
+                };
+                let _ = std::fs::write(&p, content);
+            }
+            _ => {
+                if std::fs::create_dir(&p).is_ok() {
+                    populate(&p, rng, depth - 1, counter, hostile);
+                }
+            }
+        }
+    }
+}
+
+/// listing-order encoding: `d:<hexname>{..}` and `f:<hexname>:<key>`; key `!` = unreadable as UTF-8
+fn encode(dir: &Path, built: &mut Built) {
+    let rd = std::fs::read_dir(dir).expect("read_dir");
+    let mut first = true;
+    for e in rd {
+        let path: PathBuf = e.unwrap().path();
+        if !first {
+            built.enc.push(',');
+        }
+        first = false;
+        let name = path.file_name().unwrap().to_str().unwrap().to_string();
+        if path.is_dir() {
+            built.enc.push_str(&format!("d:{}{{", hex(name.as_bytes())));
+            encode(&path, built);
+            built.enc.push('}');
+        } else {
+            match std::fs::read_to_string(&path) {
+                Ok(src) => {
+                    let key = format!("k{}", built.sources.len());
+                    // identical contents share a key only if identical text
+                    let key = built.sources.iter().find(|(_, v)| **v == src).map(|(k, _)| k.clone()).unwrap_or(key);
+                    if eligible_spec(&name) {
+                        built.sources.insert(key.clone(), src);
+                    }
+                    built.enc.push_str(&format!("f:{}:{}", hex(name.as_bytes()), key));
+                }
+                Err(_) => built.enc.push_str(&format!("f:{}:!", hex(name.as_bytes()))),
+            }
+        }
+    }
+}
+
+fn fmt_map<K: std::fmt::Debug>(m: std::collections::HashMap<K, Vec<(String, std::collections::BTreeSet<i32>)>>) -> String {
+    let mut parts: Vec<String> = m
+        .into_iter()
+        .map(|(k, v)| {
+            format!(
+                "{:?}={}",
+                k,
+                v.iter()
+                    .map(|(f, ls)| format!("{}:{}", hex(f.as_bytes()), ls.iter().map(|l| l.to_string()).collect::<Vec<_>>().join(";")))
+                    .collect::<Vec<_>>()
+                    .join("|")
+            )
+        })
+        .collect();
+    parts.sort();
+    parts.join(",")
+}
+
+pub fn dir_requests(ctx: &mut Ctx, rng: &mut Rng) {
+    let n = if ctx.thorough { 1500 } else { 150 };
+    let root = std::env::temp_dir().join(format!("solstat-verif-dirs-{}-{}", std::process::id(), ctx.seed));
+    let _ = std::fs::remove_dir_all(&root);
+    std::fs::create_dir_all(&root).unwrap();
+    // the lower-casing assumption of the model: only ASCII letters lower-case to a letter of ".t.sol"
+    let mut bad = 0u64;
+    for cp in 0..=0x10FFFFu32 {
+        if let Some(c) = char::from_u32(cp) {
+            if !c.is_ascii() && c.to_lowercase().any(|l| ".tsol".contains(l)) {
+                bad += 1;
+            }
+        }
+    }
+    ctx.count("non_ascii_chars_lowercasing_into_dot_t_sol", bad);
+    for k in 0..n {
+        let dir = root.join(format!("t{}", k));
+        std::fs::create_dir_all(&dir).unwrap();
+        let mut counter = 0;
+        let hostile = k % 17 == 16;
+        let depth = 1 + rng.below(3);
+        populate(&dir, rng, depth, &mut counter, hostile);
+        let mut built = Built { enc: String::new(), sources: BTreeMap::new() };
+        encode(&dir, &mut built);
+        let target = dir.to_str().unwrap().to_string();
+        // category and selected patterns
+        let cat = ["opt", "vuln", "qa"][k % 3];
+        let all: Vec<&'static str> = match cat {
+            "opt" => real::optimizations().into_iter().map(|x| x.0).collect(),
+            "vuln" => real::vulnerabilities().into_iter().map(|x| x.0).collect(),
+            _ => real::qas().into_iter().map(|x| x.0).collect(),
+        };
+        let mut sel: Vec<&str> = all.iter().copied().filter(|_| rng.chance(2, 3)).collect();
+        if sel.is_empty() {
+            sel.push(all[rng.below(all.len())]);
+        }
+        rng.shuffle(&mut sel);
+        // per-file analysis table (each pattern alone, two different file numbers: C15)
+        let mut gt: Vec<String> = vec![];
+        let mut index_dependent = 0u64;
+        for (key, src) in &built.sources {
+            let mut per: Vec<String> = vec![];
+            for v in &all {
+                let r0 = real::run_lines(cat, v, src, 0);
+                let r1 = real::run_lines(cat, v, src, 7);
+                if r0 != r1 {
+                    index_dependent += 1;
+                }
+                per.push(format!("{}={}", v, real::fmt_lines(&r0)));
+            }
+            gt.push(format!("{}:{}", key, per.join(",")));
+        }
+        ctx.count("file_number_dependent_results", index_dependent);
+        let sel2: Vec<String> = sel.iter().map(|s| s.to_string()).collect();
+        let t2 = target.clone();
+        let imp = match cat {
+            "opt" => {
+                let ps: Vec<_> = sel2.iter().map(|s| real::optimizations().into_iter().find(|x| x.0 == s).unwrap().1).collect();
+                catch_unwind(AssertUnwindSafe(move || fmt_map(optimizations::analyze_dir(&t2, ps)))).unwrap_or_else(|_| "PANIC".into())
+            }
+            "vuln" => {
+                let ps: Vec<_> = sel2.iter().map(|s| real::vulnerabilities().into_iter().find(|x| x.0 == s).unwrap().1).collect();
+                catch_unwind(AssertUnwindSafe(move || fmt_map(vulnerabilities::analyze_dir(&t2, ps)))).unwrap_or_else(|_| "PANIC".into())
+            }
+            _ => {
+                let ps: Vec<_> = sel2.iter().map(|s| real::qas().into_iter().find(|x| x.0 == s).unwrap().1).collect();
+                catch_unwind(AssertUnwindSafe(move || fmt_map(qa::analyze_dir(&t2, ps)))).unwrap_or_else(|_| "PANIC".into())
+            }
+        };
+        ctx.line(&["DIR", cat, &sel.join(","), &built.enc, &gt.join("|"), &imp]);
+        let _ = std::fs::remove_dir_all(&dir);
+    }
+    let _ = std::fs::remove_dir_all(&root);
+}
+
+/// C15, runtime part: all detectors on shuffled (file, pattern) pairs from 16 threads, compared with
+/// the sequential results
+pub fn thread_requests(ctx: &mut Ctx, rng: &mut Rng) {
+    let nfiles = if ctx.thorough { 400 } else { 60 };
+    let mut files: Vec<String> = vec![];
+    for _ in 0..nfiles {
+        let s = gen::random_file(rng.next(), Cfg::default());
+        if solang_parser::parse(&s, 0).is_ok() {
+            files.push(s);
+        }
+    }
+    let mut jobs: Vec<(usize, &'static str, &'static str)> = vec![];
+    for (i, _) in files.iter().enumerate() {
+        for (v, _) in real::optimizations() {
+            jobs.push((i, "opt", v));
+        }
+        for (v, _) in real::vulnerabilities() {
+            jobs.push((i, "vuln", v));
+        }
+        for (v, _) in real::qas() {
+            jobs.push((i, "qa", v));
+        }
+    }
+    let seq: Vec<String> = jobs.iter().map(|(i, c, v)| real::fmt_lines(&real::run_lines(c, v, &files[*i], *i))).collect();
+    let rounds = if ctx.thorough { 6 } else { 2 };
+    let mut mismatches = 0u64;
+    let mut calls = 0u64;
+    for _ in 0..rounds {
+        let mut order: Vec<usize> = (0..jobs.len()).collect();
+        rng.shuffle(&mut order);
+        let files_ref = &files;
+        let jobs_ref = &jobs;
+        let seq_ref = &seq;
+        let chunks: Vec<Vec<usize>> = (0..16).map(|t| order.iter().copied().skip(t).step_by(16).collect()).collect();
+        let results: Vec<u64> = std::thread::scope(|s| {
+            let hs: Vec<_> = chunks
+                .iter()
+                .map(|chunk| {
+                    s.spawn(move || {
+                        let mut bad = 0u64;
+                        for &j in chunk {
+                            let (i, c, v) = jobs_ref[j];
+                            // repeat each call twice: repetition must not matter either
+                            let r1 = real::fmt_lines(&real::run_lines(c, v, &files_ref[i], i));
+                            let r2 = real::fmt_lines(&real::run_lines(c, v, &files_ref[i], i + 3));
+                            if r1 != seq_ref[j] || r2 != seq_ref[j] {
+                                bad += 1;
+                            }
+                        }
+                        bad
+                    })
+                })
+                .collect();
+            hs.into_iter().map(|h| h.join().unwrap_or(1)).collect()
+        });
+        mismatches += results.iter().sum::<u64>();
+        calls += 2 * jobs.len() as u64;
+    }
+    ctx.line(&["THREADS", &calls.to_string(), &mismatches.to_string()]);
+}
